@@ -3,7 +3,7 @@
 From Coq Require Export List PArith ZArith Bool Lia.
 Export ListNotations.
 
-Definition name := positive.
+Notation name := positive (only parsing).
 
 (* Values that flow through graphs.  VTup/VList are Python tuples/lists,
    VSentinel is nodes.base._EMIT_SENTINEL, VNone is None.  Booleans are not
